@@ -27,6 +27,7 @@ import (
 	"math/rand"
 	"os"
 	"reflect"
+	"sort"
 	"strconv"
 	"strings"
 
@@ -54,6 +55,7 @@ type c16id struct {
 	Shard int  `json:"s"`             // shifted shard id, 1-based
 	Flips int  `json:"f"`             // flips submitted
 	Non   bool `json:"non,omitempty"` // not a ceremony candidate (skipped by the lottery; takes no index)
+	Bad   int  `json:"bad,omitempty"` // stored PubKey: 0 well-formed, 1 empty (never activated: genesis / god), 2 garbage, 3 wrong length
 }
 
 type c16case struct {
@@ -73,9 +75,14 @@ type c16epoch struct {
 }
 
 type c16pid struct {
-	G int `json:"g"` // identity (same key and address in every epoch)
-	F int `json:"f"` // flips submitted in this epoch
+	G int `json:"g"`             // identity (same key and address in every epoch); >= c16nodeBase: the node's own identity
+	F int `json:"f"`             // flips submitted in this epoch
+	B int `json:"bad,omitempty"` // stored PubKey kind (see c16id.Bad)
 }
+
+// identities c16nodeBase+k are "the node itself" with node key number k: in a seq case the secStore holds that key and
+// the node's key messages go out through the real broadcastPublicFipKey / broadcastPrivateFlipKeysPackage
+const c16nodeBase = 100000
 
 const c16prodQ = int(common.ShortSessionFlips + common.ShortSessionExtraFlips)
 
@@ -128,6 +135,9 @@ func (fx *c16fixture) key(i int) *ecdsa.PrivateKey {
 		return k
 	}
 	k := c16derive("id", i)
+	if i >= c16nodeBase {
+		k = c16derive("node", i-c16nodeBase)
+	}
 	fx.keys[i] = k
 	fx.addrs[i] = crypto.PubkeyToAddress(k.PublicKey)
 	fx.pubs[i] = crypto.FromECDSAPub(&k.PublicKey)
@@ -144,7 +154,48 @@ func (fx *c16fixture) flipKeys(i int) (*ecies.PrivateKey, *ecies.PrivateKey) {
 	fx.fks[i] = k
 	return k[0], k[1]
 }
-func (fx *c16fixture) pub(i int) []byte          { fx.key(i); return fx.pubs[i] }
+func (fx *c16fixture) pub(i int) []byte { fx.key(i); return fx.pubs[i] }
+
+// pubOf: what the identity state stores as PubKey (unique per identity except the empty one)
+func (fx *c16fixture) pubOf(i, bad int) []byte {
+	switch bad {
+	case 1:
+		return nil
+	case 2: // 65 bytes, uncompressed marker, not a curve point
+		h1, h2 := crypto.Hash([]byte(fmt.Sprintf("c16-garbage-x-%d", i))), crypto.Hash([]byte(fmt.Sprintf("c16-garbage-y-%d", i)))
+		return append(append([]byte{4}, h1[:]...), h2[:]...)
+	case 3:
+		return append([]byte{}, fx.pub(i)[:33]...)
+	}
+	return fx.pub(i)
+}
+
+// c16flipKeyOf: Flipper.generateFlipEncryptionKey (flipper.go:272) re-derived: the node's flip key pair of an epoch
+func c16flipKeyOf(node *ecdsa.PrivateKey, epoch int, public bool) *ecdsa.PrivateKey {
+	seed := fmt.Sprintf("flip-private-key-for-epoch-%v", epoch)
+	if public {
+		seed = fmt.Sprintf("flip-key-for-epoch-%v", epoch)
+	}
+	h := crypto.Hash([]byte(seed))
+	sig, _ := crypto.Sign(h[:], node)
+	k, _ := crypto.GenerateKeyFromSeed(bytes.NewReader(sig))
+	return k
+}
+
+var c16shortScalars [][2]int // (node key number, epoch) whose public flip key scalar has a zero most significant byte
+
+// c16findShortScalars: about 1 of 256 (node key, epoch) pairs; found by walking deterministic node keys
+func c16findShortScalars(want int) [][2]int {
+	for k := 1; len(c16shortScalars) < want && k < 20000; k++ {
+		node := c16derive("node", k)
+		for e := 0; e < 3; e++ {
+			if len(c16flipKeyOf(node, e, true).D.Bytes()) < 32 {
+				c16shortScalars = append(c16shortScalars, [2]int{k, e})
+			}
+		}
+	}
+	return c16shortScalars
+}
 
 func c16cid(i, j int) []byte { return []byte{0x01, 0x55, byte(i >> 8), byte(i), byte(j), 0xf1} }
 
@@ -267,6 +318,7 @@ type c16shardIn struct {
 	sid  int
 	gidx []int // global identity index of candidate i of the shard
 	fl   []int // flips of candidate i
+	bad  []int // stored PubKey kind of candidate i
 }
 
 func c16shardsOf(cs c16case) []c16shardIn {
@@ -287,6 +339,7 @@ func c16shardsOf(cs c16case) []c16shardIn {
 		sh := &out[id.Shard-1]
 		sh.gidx = append(sh.gidx, g)
 		sh.fl = append(sh.fl, id.Flips)
+		sh.bad = append(sh.bad, id.Bad)
 	}
 	return out
 }
@@ -331,7 +384,7 @@ func c16runK(cs c16case, withKeys bool) *c16out {
 		if cs.Level == "cer" {
 			var ids []database.DbLotteryIdentity
 			for g, id := range cs.Ids {
-				li := database.DbLotteryIdentity{Address: fx.addr(g), ShiftedShardId: common.ShardId(id.Shard), PubKey: fx.pub(g),
+				li := database.DbLotteryIdentity{Address: fx.addr(g), ShiftedShardId: common.ShardId(id.Shard), PubKey: fx.pubOf(g, id.Bad),
 					State: uint8(state.Verified), HasDoneAllRequiredFlips: true}
 				if id.Non {
 					if g%2 == 0 {
@@ -373,7 +426,7 @@ func c16runK(cs c16case, withKeys bool) *c16out {
 		pubs := make([][]byte, len(in.gidx))
 		cids := make([][][]byte, len(in.gidx))
 		for i, g := range in.gidx {
-			addrs[i], pubs[i] = fx.addr(g), fx.pub(g)
+			addrs[i], pubs[i] = fx.addr(g), fx.pubOf(g, in.bad[i])
 			for j := 0; j < in.fl[i]; j++ {
 				cids[i] = append(cids[i], c16cid(g, j))
 			}
@@ -449,6 +502,17 @@ func c16shard(o *c16out, x *c16shardCtx) {
 		}
 	}
 	o.line(op, fmt.Sprintf("ok n=%d authors=%d flips=%d", len(sh.Candidates), nAuth, len(sh.Flips)))
+	var badList []int
+	for i := range in.fl {
+		if i < len(in.bad) && in.bad[i] != 0 {
+			badList = append(badList, i)
+		}
+	}
+	isBad := func(c int) bool { return c >= 0 && c < len(in.bad) && in.bad[c] != 0 }
+	if len(badList) > 0 {
+		o.line("badkeys "+c16L(badList), "ok")
+		o.hit("bad-pubkey-candidates")
+	}
 	// the shard must be laid out as the case says (candidate order, flip order)
 	layoutOK := len(sh.Candidates) == n && len(sh.Flips) == total
 	if layoutOK {
@@ -583,7 +647,7 @@ func c16shard(o *c16out, x *c16shardCtx) {
 	// ---- recipients: the real PrivateEncryptionKeyCandidates of every candidate
 	pubIdx := map[string]int{}
 	for i, g := range in.gidx {
-		pubIdx[hex.EncodeToString(fx.pub(g))] = i
+		pubIdx[hex.EncodeToString(fx.pubOf(g, in.bad[i]))] = i
 	}
 	rcp := make([][]int, n)   // recipients of author a (candidate indexes), nil = error
 	rcpErr := make([]bool, n) // PrivateEncryptionKeyCandidates returned an error
@@ -705,6 +769,17 @@ func c16shard(o *c16out, x *c16shardCtx) {
 	}
 	if x.seq == nil { // a multi-epoch sequence publishes and fetches for EVERY author in every epoch
 		x.krng.Shuffle(len(authors), func(i, j int) { authors[i], authors[j] = authors[j], authors[i] })
+		if len(badList) > 0 { // authors that encrypt for a candidate without a usable public key first
+			hasBad := func(a int) bool {
+				for _, c := range rcp[a] {
+					if isBad(c) {
+						return true
+					}
+				}
+				return false
+			}
+			sort.SliceStable(authors, func(i, j int) bool { return hasBad(authors[i]) && !hasBad(authors[j]) })
+		}
 		if maxA := map[bool]int{true: 2, false: 1}[n <= 12]; len(authors) > maxA {
 			authors = authors[:maxA]
 		}
@@ -718,6 +793,14 @@ func c16shard(o *c16out, x *c16shardCtx) {
 		pubFK, privFK := fx.flipKeys(ga)
 		if x.seq != nil {
 			pubFK, privFK = fx.flipKeys(ga*16 + 7000 + x.epoch) // a fresh flip key pair every epoch
+		}
+		ownNode := x.seq != nil && ga >= c16nodeBase // the node's own identity: the REAL broadcast path
+		if ownNode {
+			pubFK = ecies.ImportECDSA(c16flipKeyOf(fx.key(ga), x.epoch, true))
+			privFK = ecies.ImportECDSA(c16flipKeyOf(fx.key(ga), x.epoch, false))
+			if len(pubFK.D.Bytes()) < 32 {
+				o.hit("seq:own-flip-key-scalar-with-leading-zero")
+			}
 		}
 		want := crypto.FromECDSA(privFK.ExportECDSA())
 		var pkg []byte
@@ -736,8 +819,25 @@ func c16shard(o *c16out, x *c16shardCtx) {
 		}
 		if p, what := c16protect(func() {
 			pks, _ := x.f.Recipients(sh.Candidates[a])
-			pkg = mempool.EncryptPrivateKeysPackage(pubFK, privFK, pks)
 			nEntries = len(pks)
+			if ownNode {
+				// broadcastPrivateFlipKeysPackage + broadcastPublicFipKey of the live ceremony (flip keys from the Flipper,
+				// signatures from the secStore, KeysPool.AddPrivateKeysPackage / AddPublicFlipKey with own=true)
+				o.hit("seq:own-broadcast")
+				pubSent, pkgSent := x.f.BroadcastOwnKeys()
+				pkg = x.seq.pool.VerifC16Package(sh.Candidates[a])
+				if k := x.seq.pool.GetPublicFlipKey(sh.Candidates[a]); !pubSent || k == nil {
+					o.fail("C16:own-public-flip-key-not-published", "epoch %d: the node (key %d) is an author, but after broadcastPublicFipKey its pool holds no public flip key of it (sent flag %v; flip key scalar has %d significant bytes)",
+						x.epoch, ga-c16nodeBase, pubSent, len(pubFK.D.Bytes()))
+				} else if !bytes.Equal(crypto.FromECDSA(k.ExportECDSA()), crypto.FromECDSA(pubFK.ExportECDSA())) {
+					o.fail("C16:own-public-flip-key-not-published", "epoch %d: the pool holds another public flip key for the node than the Flipper derives", x.epoch)
+				}
+				if !pkgSent || pkg == nil {
+					o.fail("C16:own-key-package-not-published", "epoch %d: the node (key %d) is an author, but after broadcastPrivateFlipKeysPackage its pool holds no package of it", x.epoch, ga-c16nodeBase)
+				}
+				return
+			}
+			pkg = mempool.EncryptPrivateKeysPackage(pubFK, privFK, pks)
 			if x.seq != nil {
 				// what broadcastPublicFipKey / broadcastPrivateFlipKeysPackage do: signed messages through the pool's validation
 				if err := x.seq.publish(fx.key(ga), pubFK, pkg); err != nil {
@@ -750,6 +850,54 @@ func c16shard(o *c16out, x *c16shardCtx) {
 		}); p {
 			o.fail("C16:panic", "building the key package of author %d panicked: %s", a, what)
 			continue
+		}
+		// ---- the package is positional: entry i is recipient i's (empty for a recipient without a usable public key)
+		if pkg != nil && (nEntries <= 24 || len(badList) > 0) {
+			layout := make([]string, nEntries)
+			shifted := -1
+			for i := 0; i < nEntries; i++ {
+				c := rcp[a][i]
+				e, err := mempool.VerifC16KeyFromPackage(pubFK, pkg, i)
+				opens := func(c int) bool {
+					if c < 0 || c >= n {
+						return false
+					}
+					dec, err := ecies.ImportECDSA(fx.key(in.gidx[c])).Decrypt(e, nil, nil)
+					return err == nil && bytes.Equal(dec, want)
+				}
+				switch {
+				case err != nil:
+					layout[i] = "!" // the package has no such position
+				case len(e) == 0:
+					layout[i] = "x"
+				case opens(c):
+					layout[i] = strconv.Itoa(c)
+				default:
+					layout[i] = "?"
+					for c2 := 0; c2 < n; c2++ {
+						if opens(c2) {
+							layout[i] = strconv.Itoa(c2)
+							break
+						}
+					}
+				}
+				expect := strconv.Itoa(c)
+				if isBad(c) {
+					expect = "x"
+				}
+				if layout[i] != expect && shifted < 0 {
+					shifted = i
+				}
+			}
+			lay := strings.Join(layout, ",")
+			if nEntries == 0 {
+				lay = "_"
+			}
+			o.line(fmt.Sprintf("pkg %d", a), lay)
+			if shifted >= 0 {
+				o.fail("C16:package-position-shifted", "epoch %d: author %d encrypts for recipients %v (no usable public key: %v); position %d of its package holds %q (layout %s): every recipient must find its own entry at its own position",
+					x.epoch, a, rcp[a], badList, shifted, layout[shifted], lay)
+			}
 		}
 		var who []int
 		if n <= 8 || x.seq != nil {
@@ -798,7 +946,9 @@ func c16shard(o *c16out, x *c16shardCtx) {
 			o.line(fmt.Sprintf("key %d %d", c, a), ans)
 			o.hit(map[bool]string{true: "key:recipient", false: "key:non-recipient"}[isRcp[a][c]])
 			// oracle
-			if isRcp[a][c] {
+			if isRcp[a][c] && isBad(c) {
+				// a recipient without a usable public key has an empty slot: nothing to obtain (and nothing required)
+			} else if isRcp[a][c] {
 				if !got {
 					o.fail(unreachable, "epoch %d: candidate %d is a key recipient of author %d (recipients %v) but cannot extract and decrypt the author's current key (index %d, got %d bytes)", x.epoch, c, a, rcp[a], idx, len(encKey))
 				}
@@ -845,7 +995,6 @@ func c16shard(o *c16out, x *c16shardCtx) {
 		}
 	}
 }
-
 
 // ---------------------------------------------------------------- several epochs on one running node
 
@@ -935,6 +1084,21 @@ func c16runSeq(cs c16case, withKeys bool) *c16out {
 		o.fail("C16:fixture", "world: %v", err)
 		return o
 	}
+	// the node's own identity (if it takes part): its key is THE key of the node's secStore for this case
+	for _, ep := range cs.Epochs {
+		for _, id := range ep.Ids {
+			if id.G >= c16nodeBase {
+				fx.ss.Destroy()
+				fx.ss.AddKey(crypto.FromECDSA(fx.key(id.G)))
+				defer func() {
+					fx.ss.Destroy()
+					fx.ss.AddKey(crypto.FromECDSA(c16derive("coinbase", 0)))
+				}()
+				goto nodeSet
+			}
+		}
+	}
+nodeSet:
 	flipper := flip.NewFlipper(w.db, ipfs.NewMemoryIpfsProxy(), w.pool, nil, fx.ss, w.appState, w.bus)
 	krng := rand.New(rand.NewSource(cs.KSeed))
 	orng := rand.New(rand.NewSource(cs.KSeed + 1))
@@ -950,7 +1114,7 @@ func c16runSeq(cs c16case, withKeys bool) *c16out {
 		var ids []database.DbLotteryIdentity
 		in := c16shardIn{sid: 1}
 		for _, id := range ep.Ids {
-			li := database.DbLotteryIdentity{Address: fx.addr(id.G), ShiftedShardId: 1, PubKey: fx.pub(id.G), State: uint8(state.Verified), HasDoneAllRequiredFlips: true}
+			li := database.DbLotteryIdentity{Address: fx.addr(id.G), ShiftedShardId: 1, PubKey: fx.pubOf(id.G, id.B), State: uint8(state.Verified), HasDoneAllRequiredFlips: true}
 			for j := 0; j < id.F; j++ {
 				cid := c16cid(id.G, j+8*e)
 				li.FlipCids = append(li.FlipCids, cid)
@@ -959,6 +1123,7 @@ func c16runSeq(cs c16case, withKeys bool) *c16out {
 			ids = append(ids, li)
 			in.gidx = append(in.gidx, id.G)
 			in.fl = append(in.fl, id.F)
+			in.bad = append(in.bad, id.B)
 		}
 		prev = ep.Ids
 		if err := w.commit(); err != nil {
@@ -1126,21 +1291,48 @@ func c16shrink(cs c16case, sig string) c16case {
 // c16genSeq: 2-3 consecutive ceremonies among a small population; some identities author in every epoch; every epoch
 // has its own participants, order (hence candidate indexes and package positions), flip counts and seed
 func c16genSeq(c *hx.Ctx) c16case {
-	r := c.Rng
+	node := 0
+	if c.Rng.Intn(2) == 0 {
+		node = 1 + c.Rng.Intn(200)
+	}
+	return c16genSeqWith(c.Rng, node, 2+c.Rng.Intn(2))
+}
+
+// node > 0: the node's own identity (node key number `node`) takes part and authors in every epoch, its key messages
+// go out through the real broadcast functions
+func c16genSeqWith(r *rand.Rand, node, epochs int) c16case {
 	cs := c16case{Level: "seq", Q: c16prodQ, KSeed: r.Int63()}
 	pop := 3 + r.Intn(8)
 	persistent := map[int]bool{}
 	for k := 1 + r.Intn(3); k > 0; k-- {
 		persistent[r.Intn(pop)] = true
 	}
+	name := func(g int) int { return g }
+	if node > 0 {
+		persistent[0] = true
+		name = func(g int) int {
+			if g == 0 {
+				return c16nodeBase + node
+			}
+			return g
+		}
+	}
+	bad := map[int]int{} // identities whose stored PubKey is unusable (at most one empty: recipients are told apart by PubKey)
+	if r.Intn(3) == 0 {
+		for k, kinds := 1+r.Intn(2), r.Perm(3); k > 0; k-- {
+			if g := 1 + r.Intn(pop-1); bad[g] == 0 {
+				bad[g] = 1 + kinds[k-1]
+			}
+		}
+	}
 	pAuthor := []float64{0.1, 0.3, 0.6, 1}[r.Intn(4)]
-	for e, n := 0, 2+r.Intn(2); e < n; e++ {
+	for e := 0; e < epochs; e++ {
 		ep := c16epoch{Seed: r.Uint64()}
 		for _, g := range r.Perm(pop) {
 			if !persistent[g] && r.Intn(4) == 0 {
 				continue // sits this ceremony out
 			}
-			id := c16pid{G: g}
+			id := c16pid{G: name(g), B: bad[g]}
 			if persistent[g] || r.Float64() < pAuthor {
 				id.F = 1 + r.Intn(3)
 			}
@@ -1222,6 +1414,21 @@ func c16gen(c *hx.Ctx) c16case {
 			}
 			cs.Ids[i].Flips = flips()
 			exact--
+		}
+	}
+	if n > 1 && r.Intn(5) == 0 {
+		// candidates whose identity state holds no usable PubKey (never activated by a tx: genesis / god identities, or junk):
+		// at most one empty one per case (recipients are told apart by their PubKey), early positions preferred so that
+		// they are not the last recipient of a package
+		kinds := r.Perm(3)
+		for k := 1 + r.Intn(3); k > 0; k-- {
+			i := r.Intn(n)
+			if r.Intn(2) == 0 {
+				i = r.Intn(1 + n/4)
+			}
+			if cs.Ids[i].Bad == 0 {
+				cs.Ids[i].Bad = 1 + kinds[k-1]
+			}
 		}
 	}
 	if cs.Level == "cer" && r.Intn(2) == 0 {
@@ -1404,6 +1611,10 @@ func init() {
 			c16exhaustive(4, 4, []int{2, 8}, []uint64{7}, emit)
 		} else if c.Tier == "quick" {
 			c16exhaustive(4, 2, []int{1, 2, 8}, []uint64{uint64(c.Seed)}, emit)
+		}
+		// the node's public flip key scalar of an epoch with a zero most significant byte (1 of 256): searched, not awaited
+		for i, h := range c16findShortScalars(map[bool]int{true: 10, false: 3}[c.Tier == "thorough"]) {
+			emit(c16genSeqWith(rand.New(rand.NewSource(c.Seed*1000+int64(i))), h[0], h[1]+1+i%2))
 		}
 		n := c.Scale(1500, 40000)
 		for i := 0; i < n; i++ {
